@@ -6,7 +6,7 @@ LEVEL = 'proof'
 HR = 'HeaderResult'
 
 
-def auto_table(ctx, R, rule):
+def auto_table(ctx, R, rule, only=None):
     """C06.T: truth table of HeaderResult::parse over the (uninterpreted) results of the two parsers."""
     p = ctx.method('HeaderResult<>', 'parse')
     v2 = ctx.method(tables.V2_HEADER, 'try_from', 'std::convert::TryFrom<&[u8]>')
@@ -34,6 +34,8 @@ def auto_table(ctx, R, rule):
         {'name': 'v2 incomplete -> V2(v2 result)', 'cond': [('isvar', r2, 'Err'), inc], 'ret': V2},
         {'name': 'v2 terminal -> V1(v1 result)', 'cond': [('isvar', r2, 'Err'), term], 'ret': V1},
     ]
+    if only:
+        rows = [dict(r, ret=r['ret'] if any(r['name'].startswith(o) for o in only) else None, optional=True) if not any(r['name'].startswith(o) for o in only) else r for r in rows]
     opaque_free(R, rule, p, outs)
     check_rows(R, rule, p, outs, rows)
     # both parsers are applied to the same, unmodified input (already in the terms r1/r2 above); they are called at most once each
